@@ -53,10 +53,16 @@ def cases(tier, seed):
     return out
 
 
-def make(ident, present=True, resp_filter=None):
+# receive timestamps come from the interface's clock, which need not be the computer's: Unix time (as the virtual time
+# is), seconds since the interface was opened, zero (no timestamps), a clock that was set back, hardware ticks
+STAMPS = (None, lambda t: t - 999999.0, lambda t: 0.0, lambda t: 3.0e9 - t, lambda t: (t * 1e6) % 65536)
+
+
+def make(ident, present=True, resp_filter=None, stamp=0):
     import canopen
     simenv.new_world()
     bus = simenv.SimBus("inline")
+    bus.stamp = STAMPS[stamp % len(STAMPS)]
     net = canopen.Network()
     bus.attach(net, "master")
     slave = LssSlave(ident, present=present)
@@ -88,7 +94,7 @@ def run_ident(case, st):
     for v in vals:
         ident = [bg] * 4
         ident[part] = v
-        net, slave, bus = make(ident)
+        net, slave, bus = make(ident, stamp=VALS.index(v) if v in VALS else 0)
         st.evaluations += 1
         st.nontrivial.add((part, v, bg))
         rc = dict(case, value=v)
@@ -217,7 +223,7 @@ def run_services(case, st):
                 if fault == "wrong-cs":
                     return [bytes([r[0] ^ 0x20]) + r[1:]]
                 return [bytes([r[0], fault[1]]) + r[2:]]
-            net, slave, bus = make(ident, resp_filter=flt)
+            net, slave, bus = make(ident, resp_filter=flt, stamp=len(calls) + (arg or 0))
             if name != "selective-match":
                 net.lss.send_switch_state_global(net.lss.CONFIGURATION_STATE)
             st.evaluations += 1
